@@ -3,6 +3,7 @@ package c19
 import (
 	"bytes"
 	"fmt"
+	"github.com/aldas/go-modbus-client/packet"
 	"testing"
 
 	"pgregory.net/rapid"
@@ -448,9 +449,30 @@ func runAgedHook(c agedHookCase) harness.Result {
 		preps[i] = sc
 	}
 	total := 0
+	// every case keeps ONE request value for the whole run and re-addresses it before each reuse (next transaction id, neighbouring
+	// unit), as a polling program does: the hooks and the wire must get the bytes of the request as it is when the call is made
+	kept := make([]packet.Request, len(c.Cases))
+	f := cli.FramingOf(c.Kind)
 	for i := 0; i < c.N; i++ {
-		k := i % len(c.Cases)
-		o := sess.Call(c.Cases[k].Req, preps[k].Stream, preps[k].Events)
+		// (two calls in a row use the same request value: 0 0 1 1 2 2 ...)
+		k := (i / 2) % len(c.Cases)
+		var o cli.Outcome
+		if kept[k] == nil {
+			q, err := cat.NewRequest(f, c.Cases[k].Req)
+			if err != nil {
+				return harness.Fail("harness: %v", err)
+			}
+			kept[k] = q
+		} else if i%2 == 1 || i%3 == 0 {
+			hc := c.Cases[k]
+			hc.Req.Tx, hc.Req.Unit = hc.Req.Tx+uint16(i), hc.Req.Unit^uint8(1+i%7)
+			if cli.Readdress(kept[k], hc.Req.Tx, hc.Req.Unit) {
+				if sc, _, err := scenario(hc); err == nil {
+					c.Cases[k], preps[k] = hc, sc
+				}
+			}
+		}
+		o = sess.CallWith(kept[k], preps[k].Stream, preps[k].Events)
 		where := fmt.Sprintf("call #%d on one long-lived hooked %s client (%d reply bytes read so far)", i+1, c.Kind, total)
 		if o.Panic != nil || o.Hung {
 			return harness.Fail("%s: panic=%v hung=%v", where, o.Panic, o.Hung)
